@@ -276,7 +276,14 @@ func (fr *Frame) call(instr ssa.Value, cc *ssa.CallCommon, st *State, reach stri
 			return Val{Tuple: nil, Typ: resT}
 		}
 		if fv.Fn != nil && strings.HasPrefix(fv.Fn.Special, "globalfn:") {
-			return fr.globalFnCall(strings.TrimPrefix(fv.Fn.Special, "globalfn:"), args, resT)
+			qual := strings.TrimPrefix(fv.Fn.Special, "globalfn:")
+			if i := strings.LastIndex(qual, "."); i > 0 {
+				if target := fc.W.globalFuncAlias(qual[:i], qual[i+1:]); target != nil {
+					fc.trusted["function variable "+qual+" is an alias of "+target.String()+" (never reassigned)"] = true
+					return fr.callStatic(target, args, nil, cc, resT, st, reach)
+				}
+			}
+			return fr.globalFnCall(qual, args, resT)
 		}
 		if fv.Fn != nil && fv.Fn.Fn != nil {
 			callee = fv.Fn.Fn
